@@ -1,0 +1,13 @@
+//go:build verif
+// +build verif
+
+package lime
+
+// ConfigForVerif returns the configuration exactly as Build would hand it to
+// NewServer, so that a verification harness can serve it over listeners of its
+// own (the builder only knows the real TCP, WebSocket and in-process listeners).
+// It exists only in verification builds.
+func (b *ServerBuilder) ConfigForVerif() *ServerConfig {
+	b.config.Authenticate = buildAuthenticate(b.plainAuth, b.keyAuth, b.externalAuth)
+	return b.config
+}
